@@ -104,6 +104,9 @@ def spec_from(w):
     spec = {'cells': [0.0, L / 2, L]}
     for key in ('pins', 'duct', 'cool'):
         spec[key] = [[[float(x * c) for c in shape] for x in w[key]] for shape in SHAPES]
+    if 'pins0' in w:
+        # another pin pattern in the lower power cell (some pins unheated there and heated above)
+        spec['pins'][0] = [[float(x * c) for c in SHAPES[0]] for x in w['pins0']]
     return spec
 
 
@@ -112,6 +115,8 @@ def moved_power(w, lay, G, nduct):
     pp = perm_of(lay['pins'], G)
     pc = perm_of(lay['cool'], G)
     out['pins'] = move(w['pins'], pp)
+    if 'pins0' in w:
+        out['pins0'] = move(w['pins0'], pp)
     out['cool'] = move(w['cool'], pc)
     nd = len(lay['layer0'])
     parts = []
@@ -225,6 +230,10 @@ def run_asm(c):
         reg = b.reactor().assemblies[0].rodded
         w, lay = power_arrays(reg, 9000.0, c.get('seed', 0))
         nduct = reg.n_duct
+    if c.get('late'):
+        # the last, the first and a middle pin make no power in the lower half of the core
+        w['pins0'] = np.array(w['pins'], dtype=float)
+        w['pins0'][[0, len(w['pins0']) // 2, -1]] = 0.0
     base, rx0, n = sweep_record(scn_for(w, wd))
     r['states'] = n
     r['transitions'] = n
@@ -508,6 +517,11 @@ def cases(tier):
         for wire in ('clockwise', 'counterclockwise'):
             for wall in ('none', 'flow'):
                 asm.append(dict(rings=3, kind=kind, wire=wire, wall=wall, elements=elems))
+    # pins that make no power in the lower half of the core and are heated above (among them the last pin)
+    for rings in ((2, 3) if tier == 'quick' else ringset):
+        for kind in (('single', 'pins') if tier == 'quick' else ('single', 'bypass', 'pins')):
+            for wire in ('clockwise', 'counterclockwise'):
+                asm.append(dict(rings=rings, kind=kind, wire=wire, wall='none', elements=elems, late=True))
     if tier == 'quick':
         lays = [['A'] * 7, ['A', 'B', 'A', 'B', 'A', 'B', 'A'], ['B', 'A', None, 'A', 'A', 'B', 'A'],
                 [None, 'A', 'A', None, 'B', 'A', 'B'], ['A', 'D', 'B', None, 'A', 'A', 'B']]
